@@ -18,6 +18,7 @@ import Driver.Mml
 import Driver.Link
 import Driver.MdDrv
 import Driver.Layout
+import Driver.MdsFile
 open Driver
 
 def allHandlers : List Handler :=
@@ -36,6 +37,7 @@ def allHandlers : List Handler :=
   ++ LinkD.handlers
   ++ MdDrvD.handlers
   ++ LayoutD.handlers
+  ++ MdsFileD.handlers
 
 def answerModel (cmd arg : String) : String :=
   match allHandlers.find? (·.cmd == cmd) with
